@@ -9,7 +9,7 @@
 (*          [complete, exc, method, target fields host/port/path, version, code, reason, hdrs, body, rest]        *)
 (*   segs : one per segmentation executed: <<k, v, e1, .., ep>>  k = index of the first piece after which the     *)
 (*          parser reported completion (0 = never), v = index into views, e_i = cumulative end of piece i.       *)
-EXTENDS Target, Json, IOUtils, TLC
+EXTENDS ParseView, Json, IOUtils, TLC
 
 Cases == JsonDeserialize(IOEnv.TRACE_FILE)
 VARIABLES tid, phase, vw, verdict
@@ -20,35 +20,6 @@ Exp == IF C.kind = "chunk"
        THEN LET d == Dechunk(C.bytes, 1)
             IN [Incomplete EXCEPT !.complete = d.ok /\ ~d.bad, !.bad = d.bad, !.body = d.body, !.end = d.next - 1]
        ELSE ParseMsg(C.bytes)
-
-Opt(b, x) == b = x \/ (b = <<>> /\ x = <<>>)
-ReqLineWhy(v, e) ==
-    IF Len(e.parts) # 3 THEN "machinery: corpus request line does not have three parts"
-    ELSE LET connect == e.parts[1] = LitConnect
-             t == ParseTarget(e.parts[2], connect)
-         IN IF ~t.ok THEN "machinery: corpus request-target is not valid"
-            ELSE IF v.method # e.parts[1] \/ v.version # e.parts[3] THEN "C03 start-line fields differ from the reference (method / version)"
-            ELSE IF t.form # "origin" /\ ~(v.host = t.host \/ v.host = <<91>> \o t.host \o <<93>>)
-                 THEN "C03 start-line fields differ from the reference (host of the target)"
-            ELSE IF t.form # "origin" /\ v.port # t.port THEN "C03 start-line fields differ from the reference (port of the target)"
-            ELSE IF t.form # "authority" /\ ~(v.path = t.path \/ (v.path = <<>> /\ t.path = <<47>>))
-                 THEN "C03 start-line fields differ from the reference (path of the target)"
-            ELSE "ok"
-ResLineWhy(v, e) ==
-    IF Len(e.parts) < 2 THEN "machinery: corpus status line has fewer than two parts"
-    ELSE IF v.version # e.parts[1] \/ v.code # e.parts[2] THEN "C03 start-line fields differ from the reference (version / status code)"
-    ELSE IF v.reason # (IF Len(e.parts) = 3 THEN e.parts[3] ELSE <<>>) THEN "C03 start-line fields differ from the reference (reason phrase)"
-    ELSE "ok"
-ViewWhy(v, e) ==
-    IF v.exc # "" THEN "C03 parser raised " \o v.exc \o " on a segmentation of a valid message"
-    ELSE IF ~v.complete THEN "C03 parser not complete although the whole message was supplied"
-    ELSE LET lw == IF C.kind = "req" THEN ReqLineWhy(v, e) ELSE IF C.kind = "res" THEN ResLineWhy(v, e) ELSE "ok" IN
-         IF lw # "ok" THEN lw
-         ELSE IF C.kind # "chunk" /\ {<<Lower(v.hdrs[i][1]), v.hdrs[i][2]>> : i \in 1..Len(v.hdrs)} # HdrSet(e.hdrs)
-              THEN "C03 headers differ from the reference"
-         ELSE IF v.body # e.body THEN "C03 decoded body differs from the reference"
-         ELSE IF v.rest # Rest(C.bytes, e) THEN "C03 bytes after the message are not preserved untouched as remainder"
-         ELSE "ok"
 
 \* C03 proper: the view after any segmentation equals the view after ONE piece (views[1] is recorded from the
 \* one-piece feed), and the one-piece view is complete with exactly the bytes after the message as remainder.
